@@ -354,16 +354,18 @@ func c17r3(c *Ctx) {
 	kv := getKV(c.P)
 	dbFlush := c.P.Method("chain", "DB", "Flush")
 	dbCancel := c.P.Method("chain", "DB", "Cancel")
+	// helpers (also generic ones, and literals handed to them) expanded
+	kvv := c.P.Views("chain", ir.ExpandOpt{Key: "kv"})
 
 	rangesOver := func(f *ir.Func, fld *types.Var) bool {
 		found := false
 		ir.Walk(f.Body, false, func(n ast.Node) {
-			if rs, ok := n.(*ast.RangeStmt); ok && lhsField(f, rs.X) == fld {
+			if rs, ok := n.(*ast.RangeStmt); ok && lhsFieldA(f, rs.X) == fld {
 				found = true
 			}
 			if call, ok := n.(*ast.CallExpr); ok {
 				if id, ok := call.Fun.(*ast.Ident); ok && len(call.Args) == 1 {
-					if b, ok := f.Info().Uses[id].(*types.Builtin); ok && b.Name() == "clear" && lhsField(f, call.Args[0]) == fld {
+					if b, ok := f.Info().Uses[id].(*types.Builtin); ok && b.Name() == "clear" && lhsFieldA(f, call.Args[0]) == fld {
 						found = true
 					}
 				}
@@ -372,12 +374,12 @@ func c17r3(c *Ctx) {
 		return found
 	}
 	// MemDB
-	mf := c.P.Fn("chain", "MemDB", "Flush")
+	mf := kvv.Of(c.P.Fn("chain", "MemDB", "Flush"))
 	for _, fld := range []*types.Var{kv.puts, kv.dels} {
 		ob := c.Ob(mf, "drains:"+fld.Name(), mf.Body.Pos())
 		ob.Check(rangesOver(mf, fld) && mf.MentionsField(mf.Body, false, kv.buckets), nil, "MemDB.Flush does not drain MemDB.%s into the committed buckets", fld.Name())
 	}
-	mc := c.P.Fn("chain", "MemDB", "Cancel")
+	mc := kvv.Of(c.P.Fn("chain", "MemDB", "Cancel"))
 	// a bucket created since the last flush exists only as an entry of the two overlay maps, so Cancel has to drop
 	// the entries themselves (delete / clear of the outer map, or a fresh map), not just empty the per-bucket maps
 	discards := func(f *ir.Func, fld *types.Var) bool {
@@ -387,9 +389,9 @@ func c17r3(c *Ctx) {
 				if id, ok := call.Fun.(*ast.Ident); ok {
 					if b, ok := f.Info().Uses[id].(*types.Builtin); ok {
 						switch {
-						case b.Name() == "delete" && len(call.Args) == 2 && lhsField(f, call.Args[0]) == fld:
+						case b.Name() == "delete" && len(call.Args) == 2 && lhsFieldA(f, call.Args[0]) == fld:
 							found = true
-						case b.Name() == "clear" && len(call.Args) == 1 && lhsField(f, call.Args[0]) == fld:
+						case b.Name() == "clear" && len(call.Args) == 1 && lhsFieldA(f, call.Args[0]) == fld:
 							found = true
 						}
 					}
@@ -397,7 +399,7 @@ func c17r3(c *Ctx) {
 			}
 		})
 		for _, w := range f.WritesIn(f.Body, false) {
-			if lhsField(f, w.LHS) == fld && w.RHS != nil {
+			if lhsFieldA(f, w.LHS) == fld && w.RHS != nil {
 				if _, isIdx := ast.Unparen(w.LHS).(*ast.IndexExpr); !isIdx {
 					found = true
 				}
@@ -413,7 +415,7 @@ func c17r3(c *Ctx) {
 	c.VisitGraph(mc)
 
 	// CacheDB.Flush: every success-capable return is/passes backend Flush; overlay cleared before
-	cf := c.P.Fn("chain", "CacheDB", "Flush")
+	cf := kvv.Of(c.P.Fn("chain", "CacheDB", "Flush"))
 	c.VisitGraph(cf)
 	{
 		g := cf.Graph()
@@ -438,7 +440,7 @@ func c17r3(c *Ctx) {
 			// ranged at least twice: once to forward, once to clear (or clear() call)
 			n := 0
 			ir.Walk(cf.Body, false, func(x ast.Node) {
-				if rs, ok := x.(*ast.RangeStmt); ok && lhsField(cf, rs.X) == fld {
+				if rs, ok := x.(*ast.RangeStmt); ok && lhsFieldA(cf, rs.X) == fld {
 					n++
 				}
 			})
@@ -463,12 +465,12 @@ func c17r3(c *Ctx) {
 					continue
 				}
 				if rs, isRange := n.AST.(*ast.RangeStmt); isRange {
-					if cf.FieldOf(rs.X) != fld {
+					if lhsFieldA(cf, rs.X) != fld {
 						continue
 					}
 					for _, w := range cf.WritesIn(rs.Body, false) {
 						ix, isIdx := ast.Unparen(w.LHS).(*ast.IndexExpr)
-						if !isIdx || cf.FieldOf(ix.X) != fld || w.RHS == nil {
+						if !isIdx || lhsFieldA(cf, ix.X) != fld || w.RHS == nil {
 							continue
 						}
 						if se, isSl := ast.Unparen(w.RHS).(*ast.SliceExpr); (isSl && se.High != nil && isZero(cf, se.High)) || cf.IsNil(w.RHS) {
@@ -479,7 +481,7 @@ func c17r3(c *Ctx) {
 				}
 				for _, w := range cf.WritesIn(n.AST, false) {
 					ix, isIdx := ast.Unparen(w.LHS).(*ast.IndexExpr)
-					if !isIdx || cf.FieldOf(ix.X) != fld || w.RHS == nil || cf.IsNil(w.RHS) {
+					if !isIdx || lhsFieldA(cf, ix.X) != fld || w.RHS == nil || cf.IsNil(w.RHS) {
 						continue
 					}
 					if se, isSl := ast.Unparen(w.RHS).(*ast.SliceExpr); isSl && se.High != nil && isZero(cf, se.High) {
